@@ -38,5 +38,7 @@ meta = {
 if prev is not None and (prev.get("missed_at_first") or not prev.get("caught_by")):
     meta["missed_at_first"] = True
     meta["first_run_checks"] = prev.get("first_run_checks") or prev.get("checks_run_quick_tier")
+if prev is not None and prev.get("refreshed"):
+    meta["refreshed"] = prev["refreshed"]
 json.dump(meta, open(os.path.join(dst, "meta.json"), "w"), indent=1)
 print("kept", sid, "caught_by", meta["caught_by"])
